@@ -72,3 +72,31 @@ Theorem c07_exception_from_head : forall hs x,
   PipeCheck.exc_from_head hs (map PipeCheck.oev_of (fst (exc_run (contexts hs) x))) = true.
 Proof. exact exception_first_seen_from_head. Qed.
 Print Assumptions c07_exception_from_head.
+
+(* "afterwards the channel remains usable unless it was closed", synchronous channel
+   (Model/SyncChan.v, replayed against the real channel by h_chan with injected transport failures):
+   the write lock is released on EVERY path, also when transport.Write/Writev/Flush fails - so a write
+   call that has not returned is either able to step, or waits for a lock holder that is able to step;
+   in a state where nothing can step every call has returned; and no execution is infinite *)
+From GN Require Import Model.SyncChan Proof.SyncChan_proofs.
+Theorem c07_sync_lock_always_released : forall s i t, SInv s -> nth_error (sc_threads s) i = Some t -> y_finished t = false ->
+  y_enabled s i = true \/ exists j, sc_lock s = Some j /\ j <> i /\ y_enabled s j = true.
+Proof. exact sync_progress. Qed.
+Print Assumptions c07_sync_lock_always_released.
+Theorem c07_sync_invariant_reachable : forall ths sched, sc_wf ths = true -> SInv (sc_run (sc_init ths) sched).
+Proof. exact (fun ths sched H => sinv_run sched _ (sinv_init ths H)). Qed.
+Theorem c07_sync_no_deadlock : forall s, SInv s -> (forall i, y_enabled s i = false) ->
+  forall i t, nth_error (sc_threads s) i = Some t -> y_finished t = true.
+Proof. exact sync_quiescent_all_done. Qed.
+Print Assumptions c07_sync_no_deadlock.
+Theorem c07_sync_no_infinite_execution : forall sched s s', all_runs s sched = Some s' ->
+  length sched + y_meas (sc_threads s') <= y_meas (sc_threads s).
+Proof. exact sync_no_infinite_execution. Qed.
+Print Assumptions c07_sync_no_infinite_execution.
+(* non-vacuity: the first write fails in the transport (injected), the second writer then gets the lock and succeeds *)
+Example c07_sync_nonvacuous :
+  let s := sc_run (sc_init [YWriter [1] YCheck []; YWriter [2] YCheck []])
+             [YRun 0 false; YRun 0 false; YRun 1 false; YRun 0 true; YRun 1 false; YRun 1 false; YRun 1 false] in
+  sc_tlog s = [2] /\ sc_lock s = None /\
+  sc_threads s = [YWriter [] YCheck [(1, YFail)]; YWriter [] YCheck [(2, YOk)]].
+Proof. vm_compute. repeat split; reflexivity. Qed.
